@@ -356,6 +356,112 @@ def check_near_sequence(acc: core.Acc, a: tuple) -> None:
                     return
 
 
+def ref_axis_angle(axis: tuple, angle: float):
+    """Rodrigues' formula in the row-vector convention, with the sign fixed by the three principal cases the library
+    documents (a rotation about +Z by t is a yaw of t, about +Y a pitch of t, about +X a roll of t)."""
+    ln = math.sqrt(sum(c * c for c in axis))
+    x, y, z = (c / ln for c in axis)
+    t = math.radians(angle)
+    c, s_ = math.cos(t), math.sin(t)
+    ic = 1.0 - c
+    # column-vector rotation by +t about n, transposed for row vectors
+    col = ((c + x * x * ic, x * y * ic - z * s_, x * z * ic + y * s_),
+           (y * x * ic + z * s_, c + y * y * ic, y * z * ic - x * s_),
+           (z * x * ic - y * s_, z * y * ic + x * s_, c + z * z * ic))
+    return tuple(tuple(col[j][i] for j in range(3)) for i in range(3))
+
+
+# harness self-check of the convention against the closed-form Euler matrices
+for _t in (30.0, 135.0):
+    assert mdiff(ref_axis_angle((0, 0, 1), _t), ref_matrix(0.0, _t, 0.0)) < 1e-15
+    assert mdiff(ref_axis_angle((0, 1, 0), _t), ref_matrix(_t, 0.0, 0.0)) < 1e-15
+    assert mdiff(ref_axis_angle((1, 0, 0), _t), ref_matrix(0.0, 0.0, _t)) < 1e-15
+
+AXIS_COMPONENTS = (-2.0, -1.0, 0.0, 1.0, 2.0, 3.0)
+AXIS_ANGLES = tuple(15.0 * i for i in range(24)) + (0.1, 359.9, -45.0, 720.5)
+
+
+def check_axis_angle(acc: core.Acc, axis: tuple) -> None:
+    """Matrix.axis_angle / FrozenMatrix.axis_angle for one axis x every lattice angle."""
+    ln = math.sqrt(sum(c * c for c in axis))
+    unit = tuple(c / ln for c in axis)
+    for tname, cls in (('Matrix', Matrix), ('FrozenMatrix', FrozenMatrix)):
+        prev = None
+        for t in AXIS_ANGLES:
+            acc.evaluations += 1
+            case = {'axis': list(axis)}
+            forms = {'tuple': cls.axis_angle(axis, t), 'Vec': cls.axis_angle(Vec(*axis), t), 'FrozenVec': cls.axis_angle(FrozenVec(*axis), t)}
+            want = ref_axis_angle(axis, t)
+            for fname, m in forms.items():
+                r = rows(m)
+                if type(m) is not cls:
+                    acc.fail('axis_angle_type', case, f'{tname}.axis_angle({axis}, {t}) via {fname} returned a {type(m).__name__}', type=tname)
+                    return
+                if mdiff(r, want) > 1e-12:
+                    acc.fail('axis_angle_convention', case, f'{tname}.axis_angle({axis} as {fname}, {t}) = {r}; Rodrigues reference {want} (diff {mdiff(r, want):.3e})', type=tname)
+                    return
+            m = forms['tuple']
+            r = rows(m)
+            # proper rotation, inverse == transpose, the axis is left fixed
+            rrT = mat_prod(r, tuple(zip(*r)))
+            if mdiff(rrT, ((1, 0, 0), (0, 1, 0), (0, 0, 1))) > 1e-12:
+                acc.fail('axis_angle_not_orthonormal', case, f'{tname}.axis_angle({axis}, {t}) rows are not orthonormal: {r}', type=tname)
+                return
+            if mdiff(rows(m.inverse()), rows(m.transpose())) > 1e-12:
+                acc.fail('inverse_not_transpose', case, f'{tname}.axis_angle({axis}, {t}): inverse() != transpose()', type=tname)
+                return
+            if vdiff(tuple(Vec(*unit) @ m), unit) > 1e-12:
+                acc.fail('axis_not_fixed', case, f'{tname}.axis_angle({axis}, {t}) moves its own axis to {tuple(Vec(*unit) @ m)}', type=tname)
+                return
+            # angles about one axis add
+            if prev is not None:
+                pt, pm = prev
+                if mdiff(rows(pm @ m), ref_axis_angle(axis, pt + t)) > 1e-12:
+                    acc.fail('axis_angle_not_additive', case, f'{tname}: axis_angle({axis}, {pt}) @ axis_angle({axis}, {t}) != axis_angle({axis}, {pt + t})', type=tname)
+                    return
+            prev = (t, m)
+            # through Euler angles and back
+            back = rows(Matrix.from_angle(m.to_angle()))
+            if mdiff(back, r) > 2e-3:
+                acc.fail('to_angle_roundtrip', case, f'{tname}.axis_angle({axis}, {t}).to_angle() = {m.to_angle()} rebuilds {back} (diff {mdiff(back, r):.3e})', type=tname)
+                return
+
+
+def check_transform(acc: core.Acc, a: tuple, b: tuple) -> None:
+    """The context-manager forms: Angle.transform() yields the angle's own matrix and stores the edited matrix back;
+    Vec.transform() yields the identity and applies the edited matrix to the vector."""
+    acc.evaluations += 1
+    ang = Angle(*a)
+    ra, rb = ref_matrix(*a), ref_matrix(*b)
+    with ang.transform() as m:
+        seen = rows(m)
+        probe = tuple(Vec(1.0, 2.0, 3.0) @ m)
+        m @= Angle(*b)
+    if mdiff(seen, ra) > 1e-12 or vdiff(probe, vec_mat((1.0, 2.0, 3.0), ra)) > 1e-12:
+        acc.fail('transform_yields_wrong_matrix', {'ta': list(a), 'tb': list(b)}, f'Angle{a}.transform() yielded {seen}, the angle\'s matrix is {ra}')
+        return
+    want = mat_prod(ra, rb)
+    got = rows(Matrix.from_angle(ang))
+    if mdiff(got, want) > 2e-3:
+        acc.fail('transform_result', {'ta': list(a), 'tb': list(b)}, f'with Angle{a}.transform() as m: m @= Angle{b} left {ang} = {got}; expected {want}')
+        return
+    for k in range(3):
+        if not 0.0 <= tuple(ang)[k] < 360.0:
+            acc.fail('transform_result', {'ta': list(a), 'tb': list(b)}, f'Angle.transform() left a component outside [0, 360): {ang!r}')
+            return
+    v = Vec(1.5, -2.0, 3.25)
+    with v.transform() as m:
+        ident = rows(m)
+        m @= Angle(*a)
+        m @= Matrix.from_angle(*b)
+    if mdiff(ident, ((1, 0, 0), (0, 1, 0), (0, 0, 1))) > 0:
+        acc.fail('transform_yields_wrong_matrix', {'ta': list(a), 'tb': list(b)}, f'Vec.transform() yielded {ident}, not the identity')
+        return
+    wantv = vec_mat(vec_mat((1.5, -2.0, 3.25), ra), rb)
+    if vdiff(tuple(v), wantv) > 1e-9:
+        acc.fail('transform_result', {'ta': list(a), 'tb': list(b)}, f'with Vec.transform() as m: m @= Angle{a}; m @= Matrix{b} gave {tuple(v)}, expected {wantv}')
+
+
 def lattice_g1():
     steps = [15.0 * i for i in range(24)]
     return itertools.product(steps, steps, steps)
@@ -389,6 +495,11 @@ def shard(spec) -> core.Acc:
         for (p, y, r) in spec[1]:
             guarded(acc, check_angle, {'angle': [p, y, r]}, p, y, r, True)
         acc.sample({'angle': list(spec[1][0])}, 1)
+    elif kind == 'axes':
+        for axis in spec[1]:
+            guarded(acc, check_axis_angle, {'axis': list(axis)}, axis)
+            acc.nontrivial += 1
+        acc.sample({'axis': list(spec[1][0]), 'angles': list(AXIS_ANGLES)}, 1)
     elif kind == 'pairs':
         a_list, b_list = spec[1], spec[2]
         for a in a_list:
@@ -397,6 +508,7 @@ def shard(spec) -> core.Acc:
             for b in b_list:
                 guarded(acc, check_pair, {'a': list(a), 'b': list(b)}, a, b)
                 guarded(acc, check_mutated_reuse, {'reuse_a': list(a), 'reuse_b': list(b)}, a, b)
+                guarded(acc, check_transform, {'ta': list(a), 'tb': list(b)}, a, b)
         acc.sample({'a': list(a_list[0]), 'b': list(b_list[0])}, 1)
     return acc
 
@@ -412,8 +524,12 @@ def run(ctx: core.Ctx) -> None:
     pairs_a = coarse + special
     for chunk in core.chunked(pairs_a, 4 if ctx.quick else 8):
         shards.append(('pairs', chunk, pairs_a))
+    axes = [ax for ax in itertools.product(AXIS_COMPONENTS, repeat=3) if any(ax)]
+    for chunk in core.chunked(axes, 12):
+        shards.append(('axes', chunk))
     k = ctx.seed % len(shards)
     core.par_map(shard, shards[k:] + shards[:k], ctx.acc)
+    ctx.coverage_extra['axes'] = len(axes)
     ctx.coverage_extra['angles'] = len(angles)
     ctx.coverage_extra['composition_pairs'] = len(pairs_a) ** 2
     ctx.rule = (f'{len(angles)} angle triples: all multiples of 15 degrees (13824), pole neighbourhoods p = +-90 +- e for e in {POLE_E} '
@@ -421,7 +537,7 @@ def run(ctx: core.Ctx) -> None:
                 f'determinant, to_angle round trip (2h allowance under the 0.001 threshold), inverse vs transpose, and '
                 f'{len(VECS)} vectors x (Vec, FrozenVec, tuple) x (Angle, FrozenAngle, Matrix, FrozenMatrix) x (@, @=). Composition: '
                 f'all {len(pairs_a)}^2 ordered pairs of the {int(step)}-degree sub-lattice + {len(special)} special angles x the 4x4 '
-                f'rotation type matrix x (@, @=) with associativity on 3 vectors; for each first angle also the sequence of its 9 neighbours at 1e-7 / 3e-9 / -1e-8 degrees per component, converted one after another (results must not depend on earlier calls). Reference: closed-form AngleVectors and the '
+                f'rotation type matrix x (@, @=) with associativity on 3 vectors; for each first angle also the sequence of its 9 neighbours at 1e-7 / 3e-9 / -1e-8 degrees per component, converted one after another (results must not depend on earlier calls). Every pair also through the context managers Angle.transform() (yielded matrix = that of the angle, result stored back) and Vec.transform(). Matrix/FrozenMatrix.axis_angle for every non-zero axis with components in -2..3 (215) x 28 angles x (tuple, Vec, FrozenVec) against the Rodrigues formula: orthonormal, inverse = transpose, axis fixed, additive, Euler round trip. Reference: closed-form AngleVectors and the '
                 f'roll-pitch-yaw product, both written in the harness. Non-trivial = every angle / pair (each enumerated once).')
 
 
@@ -429,6 +545,10 @@ def replay(case: dict) -> list:
     acc = core.Acc()
     if 'reuse_a' in case:
         guarded(acc, check_mutated_reuse, case, tuple(case['reuse_a']), tuple(case['reuse_b']))
+    elif 'axis' in case:
+        guarded(acc, check_axis_angle, case, tuple(case['axis']))
+    elif 'ta' in case:
+        guarded(acc, check_transform, case, tuple(case['ta']), tuple(case['tb']))
     elif 'near' in case:
         guarded(acc, check_near_sequence, case, tuple(case['near']))
     elif 'self_alias' in case:
